@@ -74,13 +74,21 @@ pub fn gen_sink(r: &mut Rng, tier: Tier, job: u64) -> Plan {
         return super::props3::gen_c04_plan(r, tier, job);
     }
     let mut o = ConvOpts::std();
-    o.max_cmds = 3 + r.usize_below(14);
+    // thorough tier: a third of the sink conversations are long histories (up to 90 commands,
+    // ten statement ids, up to 65 parameters) -- state left behind by early steps gets the
+    // chance to meet late ones
+    let long = tier == Tier::Thorough && r.chance(1, 3);
+    o.max_cmds = if long { 20 + r.usize_below(70) } else { 3 + r.usize_below(14) };
+    if long {
+        o.id_pool = vec![1, 2, 3, 0, u32::MAX, 7, 8, 9, 100, 0x0001_0000];
+        o.quit_at_end = 10;
+    }
     o.random_seq = r.chance(1, 3);
     o.sentinel_pings = r.coin();
     o.big_ok = r.chance(1, 10);
     o.prog_text.big_ok = o.big_ok;
     o.prog_bin.big_ok = o.big_ok;
-    o.max_params = *r.pick(&[2usize, 5, 5, 9, 17]);
+    o.max_params = if long { *r.pick(&[5usize, 9, 17, 33, 65]) } else { *r.pick(&[2usize, 5, 5, 9, 17]) };
     if r.chance(1, 3) {
         // long data heavy
         o.w = [20, 4, 4, 4, 6, 2, 14, 22, 18, 6];
